@@ -266,9 +266,10 @@ def drive_hbatch(batch, extra):
                 r["cemsg"] = bad[cid]
                 r["r"] = [{"k": "unrep"}] * len(envs)
             else:
-                r["r"] = [({"k": "err", "e": "SIGFPE", "a": ""}
-                           if (cid, ei) in fpe and (cid, i, ei) not in vals
-                           else c14c.token_to_val(vals.get((cid, i, ei)), "long"))
+                # a trap anywhere in the mapper's program (an unrelated hoisted
+                # assignment, an earlier call's text) ends that environment: results
+                # not printed are unknown (unrep -> SKIP), not "trapped"
+                r["r"] = [c14c.token_to_val(vals.get((cid, i, ei)), "long")
                           for ei in range(len(envs))]
         recs.append(rec)
     return recs
@@ -281,11 +282,9 @@ _LEAF = {"Var", "Const"}
 
 def _kids(e):
     t = e["t"]
-    if "c" in e and t not in ("Call",):
+    if "c" in e:
         return [(str(i + 1), k) for i, k in enumerate(e["c"])]
-    if t == "Call":
-        return [(str(i + 1), k) for i, k in enumerate(e["c"])]
-    if t == "Cmp" or "b" in e:
+    if "b" in e:
         return [("a", e["a"]), ("b", e["b"])]
     if t == "If":
         return [("i", e["i"]), ("th", e["th"]), ("el", e["el"])]
@@ -324,11 +323,15 @@ def edges(e, acc=None):
     """(parent kind, child position, child kind) for every composite child; position
     is '*' under the operand-sorting Sum / Product"""
     acc = [] if acc is None else acc
+    if _kind(e) == "Power1":          # x**1 is printed as x: transparent
+        return edges(e["a"], acc)
     for pos, k in _kids(e):
         if not isinstance(k, dict):
             continue
         if pos == "1" and _is_negprod(e):
             continue
+        while _kind(k) == "Power1":
+            k = k["a"]
         if k["t"] not in _LEAF or _kind(k) == "NegConst":
             p = e["t"]
             acc.append((_kind(e), "*" if p in _COMMUTATIVE else pos, _kind(k)))
